@@ -259,6 +259,7 @@ fn cmd_check(id: &str, tier: &str) {
                     ops,
                     original_op_count: r.ops.len(),
                     mode: r.mode.clone(),
+                    build: if cfg!(feature = "hooks") { "main".into() } else { "plain".into() },
                 };
                 let site_tag: String = site.chars().map(|c| if c.is_ascii_alphanumeric() { c } else { '_' }).take(48).collect();
                 let path = format!("{REPLAYS}/{}-{}-{}-{}-{}-{}.json", prop, seed, r.cfg.scenario, r.idx, clause, site_tag);
@@ -282,6 +283,51 @@ fn cmd_check(id: &str, tier: &str) {
     }
     for l in &known_lines {
         println!("{l}");
+    }
+
+    // ---- second build: the same check, at a quarter of the scale, by the simulator compiled
+    // against snow as a user's release build has it (no verif-hooks / risky-raw-split features,
+    // no debug assertions, no overflow checks): code that exists only there is otherwise never run
+    let mut second_build = json!({"status": "this is the second build"});
+    if cfg!(feature = "hooks") {
+        let plain = std::env::current_exe().ok().and_then(|p| p.parent().and_then(|d| d.parent()).map(|t| t.join("plain").join("snowsim")));
+        second_build = match plain {
+            Some(p) if p.exists() => {
+                let child_ev = format!("{}/.second-build", evidence_dir());
+                let out = std::process::Command::new(&p)
+                    .arg("check")
+                    .arg(id)
+                    .arg(tier)
+                    .env("VERIF_SCALE", format!("{}", scale * 0.25))
+                    .env("VERIF_EVIDENCE_DIR", &child_ev)
+                    .output();
+                match out {
+                    Ok(o) => {
+                        let text = String::from_utf8_lossy(&o.stdout).to_string();
+                        let runs = text.lines().filter_map(|l| l.trim().strip_prefix("runs=")).filter_map(|r| r.split_whitespace().next().and_then(|n| n.parse::<u64>().ok())).last().unwrap_or(0);
+                        let code = o.status.code().unwrap_or(2);
+                        for l in text.lines().filter(|l| l.starts_with("  class")) {
+                            println!("  [second build]{}", &l[1..]);
+                        }
+                        if code == 1 {
+                            for l in text.lines().filter(|l| l.starts_with("VIOLATION ")) {
+                                viol_lines.push(l.to_string());
+                            }
+                            n_viol += text.lines().filter(|l| l.starts_with("VIOLATION ")).count();
+                        } else if code != 0 {
+                            harness_errors.push(format!("second build ({}) ended with exit code {code}: {}", p.display(), String::from_utf8_lossy(&o.stderr).lines().take(3).collect::<Vec<_>>().join(" | ")));
+                        }
+                        println!("second build (plain snow, scale {:.2}): runs={runs} exit={code}", scale * 0.25);
+                        json!({"status": "ran", "snow_build": "release profile without debug assertions and overflow checks; cargo features ring-resolver, use-p256, use-xchacha20poly1305 only", "scale": scale * 0.25, "runs": runs, "exit_code": code})
+                    },
+                    Err(e) => {
+                        harness_errors.push(format!("second build could not be started: {e}"));
+                        json!({"status": "failed to start"})
+                    },
+                }
+            },
+            _ => json!({"status": "absent (only ./check and setup_cmd build it)"}),
+        };
     }
 
     // ---- evidence
@@ -327,6 +373,7 @@ fn cmd_check(id: &str, tier: &str) {
             "aborted_by_panic": stats.aborted_by_panic,
             "known_findings_hit": n_known,
             "workers": workers(),
+            "second_build": second_build,
         },
         "assumptions": [
             "reference model refnoise (validated against the cacophony vectors at the start of this run)",
@@ -370,6 +417,24 @@ fn cmd_replay(path: &str, quiet: bool) {
             exit(2);
         },
     };
+    if rf.build == "plain" && cfg!(feature = "hooks") {
+        // found by the second build: re-execute there
+        let plain = std::env::current_exe().ok().and_then(|p| p.parent().and_then(|d| d.parent()).map(|t| t.join("plain").join("snowsim")));
+        match plain {
+            Some(p) if p.exists() => {
+                let mut c = std::process::Command::new(p);
+                c.arg("replay").arg(path);
+                if quiet {
+                    c.arg("--quiet");
+                }
+                exit(c.status().ok().and_then(|s| s.code()).unwrap_or(2));
+            },
+            _ => {
+                eprintln!("HARNESS ERROR: {path} was recorded by the second build, which is not present (run ./check once to build it)");
+                exit(2);
+            },
+        }
+    }
     let e = exec_mode(&rf.cfg, &rf.ops, &rf.mode);
     let mut hit = false;
     for v in &e.viol {
